@@ -178,7 +178,7 @@ def strip_dims(part):
 
 
 def _strip_point(idx):
-    (si, cv, pos), container, rk, ti, status_i, extra = decode_point(idx, strip_dims(P))
+    (si, cv, pos), container, rk, ti, status_i, extra = decode_point(idx, strip_dims)
     return N._untraced(_strip_body)(P.front, si, cv, pos, container, rk, ti, status_i, extra)
 
 
@@ -291,7 +291,7 @@ def chain_dims(part):
 
 
 def _chain_point(idx):
-    return N._untraced(_chain_body)(*decode_point(idx, chain_dims(P)))
+    return N._untraced(_chain_body)(*decode_point(idx, chain_dims))
 
 
 def c06_chain(idx: int) -> bool:
@@ -381,7 +381,7 @@ def pool_dims(part):
 
 
 def _pool_point(idx):
-    return N._untraced(_pool_body)(*decode_point(idx, pool_dims(P)))
+    return N._untraced(_pool_body)(*decode_point(idx, pool_dims))
 
 
 def c06_pool(idx: int) -> bool:
